@@ -279,9 +279,73 @@ def _js(x):
     return list(x) if isinstance(x, tuple) else x
 
 
+def run_copy_tables(ctx):
+    """copies carry the WHOLE label tables of their originals (and domains / factors): also labels that were registered
+    (add_node_label / add_edge_label / add_domain / add_factor / new_finite_factor) but are used by no node, edge or rule"""
+    from fggs import FactorGraph, FGG, FiniteDomain, FiniteFactor
+    def tables(o):
+        t = dict(node_labels=sorted(l.name for l in o.node_labels()), edge_labels=sorted((l.name, l.is_terminal) for l in o.edge_labels()),
+                 terminals=sorted(l.name for l in o.terminals()), nonterminals=sorted(l.name for l in o.nonterminals()))
+        if hasattr(o, 'domains'):
+            t['domains'] = sorted(o.domains)
+            t['factors'] = sorted(o.factors)
+        return t
+    n = 30 if ctx.quick else 400
+    for k in range(n):
+        for cls in ('Graph', 'HRG', 'FactorGraph', 'FGG'):
+            A, B, U = NodeLabel('A'), NodeLabel('B'), NodeLabel('Unused%d' % (k % 3))
+            ta = EdgeLabel('ta', [A], is_terminal=True)
+            tu = EdgeLabel('t_unused', [A, B], is_terminal=True)
+            X = EdgeLabel('X', [A], is_nonterminal=True)
+            xu = EdgeLabel('X_unused', [], is_nonterminal=True)
+            g = Graph() if cls in ('Graph', 'HRG', 'FGG') else FactorGraph()
+            v = Node(A, 'v')
+            g.add_node(v)
+            if ctx.rng.random() < 0.8:
+                g.add_edge(Edge(ta, [v], id='e'))
+            if cls in ('Graph', 'FactorGraph'):
+                o = g
+            else:
+                o = HRG(X) if cls == 'HRG' else FGG(X)
+                g.ext = [v]
+                o.add_rule(HRGRule(X, g))
+            regs = []
+            for what, fn in [('node-label', lambda: o.add_node_label(U)), ('edge-label', lambda: o.add_edge_label(tu)),
+                             ('nonterminal-label', lambda: o.add_edge_label(xu))]:
+                if ctx.rng.random() < 0.7:
+                    fn(); regs.append(what)
+            if cls in ('FactorGraph', 'FGG'):
+                if ctx.rng.random() < 0.7:
+                    o.add_domain(A, FiniteDomain([0, 1])); regs.append('domain-used')
+                    if ctx.rng.random() < 0.7:
+                        o.add_domain(B, FiniteDomain(['p'])); regs.append('domain-unused')
+                        if 'edge-label' in regs and ctx.rng.random() < 0.8:
+                            o.add_factor(tu, FiniteFactor([o.domains['A'], o.domains['B']], [[1.0], [2.0]])); regs.append('factor-unused')
+            cp = o.copy()
+            case = dict(host=cls, registered=regs)
+            ctx.case(case, ('copy-tables', cls, tuple(regs)), sample_every=60)
+            ctx.count(f'copy-tables.{cls}')
+            a, b = tables(o), tables(cp)
+            ctx.evaluations += 1
+            if a != b:
+                diff = {key: (a[key], b[key]) for key in a if a[key] != b[key]}
+                ctx.fail(f'a copy of a {cls} does not carry the label tables / interpretation of its original: ' + repr(diff)[:300], case, b, a,
+                         tags=['copy', 'label-tables', cls])
+            if not (cp == o) or (cp != o):
+                ctx.fail(f'a copy of a {cls} is not equal to its original', case, None, None, tags=['copy', 'not-equal', cls])
+            # a label declared on the original resolves on the copy as well
+            if 'factor-unused' in regs:
+                try:
+                    if cp.factors['t_unused'] != o.factors['t_unused']:
+                        ctx.fail('the factor of an unused label differs on the copy', case, None, None, tags=['copy', 'label-tables', cls])
+                except KeyError:
+                    ctx.fail('the factor of an unused label is missing on the copy', case, None, None, tags=['copy', 'label-tables', cls])
+
+
 def run(ctx):
     run_edge_arity(ctx)
     run_fgg_copies(ctx)
+    run_copy_tables(ctx)
     ops = op_instances()
     seqs = []
     # exhaustive length 2 over a reduced op list (graph 0 / grammar 0 only) after a fixed prologue
